@@ -251,12 +251,14 @@ def main(tier, seed):
         chk.bounds = dict(templates='all shapes of <= 2 segments (30) + 10 seeded shapes of 3 segments (at most one escaped segment); one solver run per shape', names='<= 2 chars', values='<= 4 chars', variables=2)
     else:
         for gi, g in enumerate(groups(shapes1 + shapes2 + shapes3, 14)): chk.job(job_single, 'single:1-3seg/%d' % gi, shapes=g, name_cap=2, val_cap=5, nvars=2)
-        chk.job(job_spread, 'spread', name_cap=2, val_cap=5, nvars=2)
+        # (values of 5 characters: 25 minutes before the last engine changes, more than 55 minutes after them; the thorough tier keeps the
+        #  spread job at the quick bound and deepens the single-binding jobs and the lemmas instead)
+        chk.job(job_spread, 'spread', name_cap=2, val_cap=4, nvars=2)
         chk.job(job_token_inductive, 'parser keeps backslash-dollar-brace', N=64, C=32, part='C02')
         chk.job(job_token_inductive, 're-split scanner lemmas', N=64, C=32, part='C02r')
         chk.job(job_arglist_inductive, 're-split word-list lemma', K=6, control_as_char=True, pid='C02')
         chk.job(job_expand_inductive, 'expansion lemmas', N=64, OC=64, KC=16, nvars=3, key_cap=15, val_cap=24)
-        chk.bounds = dict(templates='all 155 shapes of <= 3 segments; one solver run per shape', names='<= 2 chars', values='<= 5 chars; lemma jobs: values <= 24, names <= 15, templates <= 64', variables=2)
+        chk.bounds = dict(templates='all 155 shapes of <= 3 segments; one solver run per shape', names='<= 2 chars', values='<= 5 chars (single binding), <= 4 chars (spread binding); lemma jobs: values <= 24, names <= 15, templates <= 64', variables=2)
     chk.assumptions = ['std models for String/Vec/HashMap/Chars', 'spread (%{name}) values exclude " and # (README: "acts the same as writing the words on the line")',
                        'names: non-empty, no space/tab/CR/LF, =, }', 'the written argument is given in parsed form; that the parser keeps \\${ as these three characters is decided by the scanner lemmas CTL+$ and VAR+{ (DESIGN 8.6)']
     results = chk.run()
